@@ -102,32 +102,39 @@ Definition nx_remove_node (g : graph) (b : nat) : res graph :=
 Fixpoint fold_res {X Y} (f : X -> Y -> res X) (l : list Y) (x : X) : res X :=
   match l with [] => Ok x | y :: t => match f x y with Ok x' => fold_res f t x' | Raise s => Raise s end end.
 
+Definition build_graph (o : opts) (n : net) (es : list edge) : graph :=
+  {| g_nodes := dedup Nat.eq_dec (flat_map (fun e => [e_u e; e_v e]) es ++ map b_id (buses n));
+     g_arcs := fold_left (add_edge (o_multi o)) es [] |}.
+(* nogobuses :272 *)
+Definition stage_nogo (o : opts) (g : graph) : res graph :=
+  fold_res (fun g b => if mem Nat.eq_dec b (g_nodes g) then Ok (remove_node g b) else Raise "NetworkXError")
+           (match o_nogo o with Some l => l | None => [] end) g.
+(* out-of-service buses: mg.remove_node(b) for b in net.bus.index[~in_service] if b in mg *)
+Definition stage_oos (o : opts) (n : net) (g : graph) : res graph :=
+  if o_inc_oos o then Ok g
+  else fold_res (fun g b => if mem Nat.eq_dec b (g_nodes g) then nx_remove_node g b else Ok g)
+                (map b_id (filter (fun r => negb (b_is r)) (buses n))) g.
+(* notravbuses: the arcs leaving b are deleted, the arcs entering b stay; `skip` = a notravbus that is not in the graph
+   is skipped (after the repair) instead of raising KeyError in mg[b] (before) *)
+Definition stage_notrav (skip : bool) (o : opts) (g : graph) : res graph :=
+  fold_res (fun g b => if mem Nat.eq_dec b (g_nodes g)
+                       then Ok {| g_nodes := g_nodes g; g_arcs := filter (fun a => negb (Nat.eqb (e_u a) b)) (g_arcs g) |}
+                       else if skip then Ok g else Raise "KeyError")
+           (match o_notrav o with Some l => l | None => [] end) g.
+Definition bind {X Y} (r : res X) (f : X -> res Y) : res Y := match r with Ok x => f x | Raise s => Raise s end.
+
+(* create_graph.py after "fix: create_nxgraph removes out-of-service buses before the notravbuses edges":
+   nogobuses, then out-of-service buses, then the one-sided deletion for the notravbuses *)
 Definition create_nxgraph (o : opts) (n : net) (lens : list Q) : res graph :=
-  match raw_edges o n lens with
-  | Raise s => Raise s
-  | Ok es =>
-    let arcs := fold_left (add_edge (o_multi o)) es [] in
-    let nodes := dedup Nat.eq_dec (flat_map (fun e => [e_u e; e_v e]) es ++ map b_id (buses n)) in
-    let g0 := {| g_nodes := nodes; g_arcs := arcs |} in
-    (* nogobuses :272 *)
-    match fold_res (fun g b => if mem Nat.eq_dec b (g_nodes g) then Ok (remove_node g b) else Raise "NetworkXError")
-                   (match o_nogo o with Some l => l | None => [] end) g0 with
-    | Raise s => Raise s
-    | Ok g1 =>
-      (* notravbuses :277: the arcs leaving b are deleted, the arcs entering b stay *)
-      match fold_res (fun g b => if mem Nat.eq_dec b (g_nodes g)
-                                 then Ok {| g_nodes := g_nodes g; g_arcs := filter (fun a => negb (Nat.eqb (e_u a) b)) (g_arcs g) |}
-                                 else Raise "KeyError")
-                     (match o_notrav o with Some l => l | None => [] end) g1 with
-      | Raise s => Raise s
-      | Ok g2 =>
-        (* out-of-service buses :286 *)
-        if o_inc_oos o then Ok g2
-        else fold_res (fun g b => if mem Nat.eq_dec b (g_nodes g) then nx_remove_node g b else Ok g)
-                      (map b_id (filter (fun r => negb (b_is r)) (buses n))) g2
-      end
-    end
-  end.
+  bind (raw_edges o n lens) (fun es =>
+  bind (stage_nogo o (build_graph o n es)) (fun g1 =>
+  bind (stage_oos o n g1) (fun g2 => stage_notrav true o g2))).
+(* the order before the repair (notravbuses first, then remove_node on the one-sided adjacency), kept so that its return
+   is recognised (C26_notrav_oos_old_refuted) *)
+Definition create_nxgraph_old (o : opts) (n : net) (lens : list Q) : res graph :=
+  bind (raw_edges o n lens) (fun es =>
+  bind (stage_nogo o (build_graph o n es)) (fun g1 =>
+  bind (stage_notrav false o g1) (fun g2 => stage_oos o n g2))).
 
 (* ------------------------------------------------------------------ graph_searches *)
 (* connected_component(mg, bus, notravbuses): nodes reached from bus without expanding notravbuses *)
@@ -158,28 +165,17 @@ Definition distances (g : graph) (src : nat) : res (list (nat * Q)) :=
     end
   else Raise "NodeNotFound".
 
-(* ------------------------------------------------------------------ guard: create_nxgraph does not raise and leaves
-   no dangling adjacency — no notravbus is out of service or adjacent to an out-of-service bus (or oos buses are kept) *)
-Definition G26 (o : opts) (n : net) (lens : list Q) : bool :=
-  match o_notrav o with
-  | None | Some [] => true
-  | Some l => o_inc_oos o ||
-      match raw_edges o n lens with
-      | Raise _ => true
-      | Ok es => forallb (fun b => negb (bus_oos n b)
-                            && forallb (fun e => negb ((Nat.eqb (e_u e) b && bus_oos n (e_v e)) || (Nat.eqb (e_v e) b && bus_oos n (e_u e)))) es) l
-      end
-  end.
-
 (* ------------------------------------------------------------------ Run wrappers *)
 Definition oarc (a : arc) : out := OL [onat (e_u a); onat (e_v a); onat (fst (e_k a)); onat (snd (e_k a)); oq (e_w a)].
 Definition ores {X} (f : X -> out) (r : res X) : out := match r with Ok x => f x | Raise s => OErr s end.
 Definition ograph (g : graph) : out := OL [olist onat (g_nodes g); olist oarc (g_arcs g)].
-(* [graph; pandapower connected_components with notrav list cc_notrav; distances from src; G26] *)
+(* [graph; pandapower connected_components with notrav list cc_notrav; distances from src; every arc ends at a node; sym_arcs] *)
+Definition no_dangling (g : graph) : bool :=
+  forallb (fun a => mem Nat.eq_dec (e_u a) (g_nodes g) && mem Nat.eq_dec (e_v a) (g_nodes g)) (g_arcs g).
 Definition run_c26 (o : opts) (n : net) (lens : list Q) (cc_notrav : list nat) (src : nat) : out :=
   match create_nxgraph o n lens with
-  | Raise s => OL [OErr s; ONone; ONone; OB (G26 o n lens); ONone]
+  | Raise s => OL [OErr s; ONone; ONone; ONone; ONone]
   | Ok g => OL [ograph g; olist (olist onat) (connected_components g cc_notrav);
-                ores (olist (fun p : nat * Q => OL [onat (fst p); oq (snd p)])) (distances g src); OB (G26 o n lens);
+                ores (olist (fun p : nat * Q => OL [onat (fst p); oq (snd p)])) (distances g src); OB (no_dangling g);
                 OB (sym_arcs g)]
   end.
